@@ -15,7 +15,9 @@ from checks import codech_util as cu
 
 def run(chk):
     def extra(c, by_prof):
-        return {"memory_bound": "64 MiB + 64 * len", "hang_limit_s": 10,
+        from checks import codec_common
+        mst = codec_common.run_mutants(chk, profiles=("release", "debug"))
+        return {"model_generated_malformed_streams": mst, "memory_bound": "64 MiB + 64 * len", "hang_limit_s": 10,
                 "max_peak_live_bytes": max([int(s.get("max_peak_live_bytes", 0)) for s in by_prof.values()] or [0]),
                 "max_call_ms": max([int(s.get("max_call_ms", 0)) for s in by_prof.values()] or [0])}
     cu.simple_check(
